@@ -155,6 +155,8 @@ impl World {
             UtxoSpec { owner: Owner::Native(1), base: false, coin: 3_600_000, assets: vec![] },
             // 17: locked by the 2-of-3 script
             UtxoSpec { owner: Owner::Native(2), base: false, coin: 3_700_000, assets: vec![] },
+            // 18: more than 2^63 units of one asset (to be burnt by Mint(6))
+            UtxoSpec { owner: Owner::Key(1), base: false, coin: 3_100_000, assets: vec![(0, 1, (1u64 << 63) + 10)] },
         ];
         for (i, s) in specs.into_iter().enumerate() {
             let addr = match &s.owner {
@@ -268,6 +270,8 @@ pub enum Op {
     MintAndOutput,
     /// add_json_metadatum (label 1) next to whatever metadata is set
     MetaJson,
+    /// auxiliary data that is set but empty: 0 = set_metadata(empty map), 1 = set_auxiliary_data(blank)
+    MetaEmpty(usize),
 }
 
 pub fn op_name(op: &Op) -> String {
@@ -296,6 +300,7 @@ pub struct Model {
     pub treasury: bool,
     pub mint_and_output: bool,
     pub meta_json: bool,
+    pub meta_empty: Option<usize>,
 }
 
 pub struct St {
@@ -497,6 +502,8 @@ pub fn apply(w: &World, st: &mut St, op: Op) -> bool {
                     let mw = MintWitness::new_plutus_script(&PlutusScriptSource::new(&w.plutus[1]), &red);
                     (st.mint.add_asset(&mw, &w.names[0], &Int::new_i32(1)), vec![((1, 0), 1)])
                 }
+                // the widest burn the ledger allows, -2^63 (UTxO 18 holds the tokens)
+                6 => (st.mint.add_asset(&native, &w.names[1], &Int::new_negative(&bn(1u64 << 63))), vec![((0, 1), -((1u128 << 63) as i128))]),
                 // burns exactly what Mint(0) mints: together they net to zero
                 5 => (st.mint.add_asset(&native, &w.names[1], &Int::new_i32(-10)), vec![((0, 1), -10)]),
                 4 => {
@@ -621,6 +628,13 @@ pub fn apply(w: &World, st: &mut St, op: Op) -> bool {
                 return false;
             }
             st.m.mint_and_output = true;
+            true
+        }
+        Op::MetaEmpty(i) => {
+            if st.m.meta_empty.is_some() {
+                return false;
+            }
+            st.m.meta_empty = Some(i);
             true
         }
         Op::MetaJson => {
@@ -830,6 +844,11 @@ pub fn setup(w: &World, st: &St, params: &Params) -> Result<TransactionBuilder, 
             3 => tb.add_script_reference_input(&op_outpoint(1), 20_000),
             _ => tb.add_reference_input(&op_outpoint(0)),
         }
+    }
+    match st.m.meta_empty {
+        Some(0) => tb.set_metadata(&GeneralTransactionMetadata::new()),
+        Some(_) => tb.set_auxiliary_data(&AuxiliaryData::new()),
+        None => {}
     }
     if st.m.meta {
         let mut md = GeneralTransactionMetadata::new();
@@ -1060,7 +1079,8 @@ pub fn ops_for(prop: &str) -> Vec<Op> {
             Op::Wd(0), Op::Wd(2), Op::Mint(0), Op::Mint(1), Op::Mint(3), Op::Proposal(0), Op::Donate,
             Op::Fee(0), Op::Fee(1), Op::Fee(2), Op::Fee(3), Op::Coll(1), Op::Meta, Op::RefIn(1), Op::RefIn(3),
             Op::WdAgain(0), Op::WdAgain(2), Op::Wd(4), Op::InAgain(0), Op::In(7, 0), Op::In(7, 1), Op::In(8, 0), Op::In(17, 0),
-            Op::Ttl, Op::Treasury, Op::MintAndOutput, Op::MetaJson,
+            Op::Ttl, Op::Treasury, Op::MintAndOutput, Op::MetaJson, Op::ExtraDatum(1), Op::ExtraDatum(0), Op::MetaEmpty(0), Op::MetaEmpty(1),
+            Op::In(18, 0), Op::Mint(6),
         ],
         // C16 looks at ordering and repetition in the built transaction: items that bring scripts,
         // datums, reference inputs, signers - one or two per source
@@ -1078,7 +1098,7 @@ pub fn ops_for(prop: &str) -> Vec<Op> {
         "C09" | "C10" => vec![
             Op::In(0, 0), Op::In(7, 0), Op::In(7, 1), Op::In(8, 0), Op::In(11, 0), Op::In(6, 0), Op::In(2, 0), Op::In(14, 0), Op::In(14, 2), Op::In(15, 0), Op::In(15, 1), Op::In(8, 3),
             Op::Mint(0), Op::Mint(5), Op::Mint(2), Op::Mint(4), Op::Cert(25), Op::Cert(5), Op::Cert(26), Op::Cert(16), Op::Wd(0), Op::Wd(1), Op::Wd(3), Op::Wd(5), Op::Vote(1), Op::Vote(3), Op::Vote(4), Op::Vote(5),
-            Op::Proposal(0), Op::Proposal(3), Op::Proposal(4),
+            Op::Proposal(0), Op::Proposal(3), Op::Proposal(4), Op::MetaEmpty(0), Op::MetaEmpty(1),
             Op::ExtraDatum(0), Op::ExtraDatum(1), Op::ExtraDatum(3), Op::Meta, Op::Out(0),
         ],
         _ => vec![],
@@ -1094,7 +1114,7 @@ pub fn core_ops_for(prop: &str) -> Vec<Op> {
             Op::Out(0), Op::Out(1), Op::Out(2), Op::Out(3), Op::Out(4),
             Op::Cert(0), Op::Cert(3), Op::Cert(7), Op::Cert(13), Op::Cert(20),
             Op::Wd(0), Op::Wd(2), Op::WdAgain(0), Op::Wd(4), Op::Mint(0), Op::Mint(1), Op::Mint(3), Op::Proposal(0), Op::Donate,
-            Op::Fee(0), Op::Fee(2), Op::Coll(1), Op::RefIn(3), Op::MintAndOutput,
+            Op::Fee(0), Op::Fee(2), Op::Coll(1), Op::RefIn(3), Op::MintAndOutput, Op::ExtraDatum(1), Op::In(18, 0), Op::Mint(6),
         ],
         "C09" | "C10" => vec![
             Op::In(0, 0), Op::In(7, 0), Op::In(7, 1), Op::In(14, 0), Op::In(14, 2), Op::In(8, 0), Op::In(11, 0),
